@@ -9,13 +9,15 @@ pub(crate) mod ghost_fs;
 pub(crate) mod stubs;
 pub(crate) mod common;
 pub(crate) mod model;
+pub(crate) mod image;
 
 /// `#[kani::proof]` + the standard environment stubs (DESIGN.md §3.3).
 /// `crc = real` keeps crc32fast's table code; `crc = off` makes every checksum
 /// the constant 0 (Hasher::update does nothing) for harnesses whose property
 /// does not depend on checksum values.
 macro_rules! env_proof {
-    (unwind = $u:expr, crc = real, fn $name:ident() $body:block) => {
+    (unwind = $u:expr, crc = real, $(#[$extra:meta])* fn $name:ident() $body:block) => {
+        $(#[$extra])*
         #[kani::proof]
         #[kani::unwind($u)]
         #[kani::stub(crc32fast::Hasher::new, crate::kani_support::stubs::crc_new)]
@@ -41,7 +43,8 @@ macro_rules! env_proof {
         #[kani::stub(crate::raft_log::raft_log::RaftLog::load_chunk_ids, crate::raft_log::raft_log::kani_h_a_raftlog::stub_load_chunk_ids)]
         fn $name() $body
     };
-    (unwind = $u:expr, crc = off, fn $name:ident() $body:block) => {
+    (unwind = $u:expr, crc = off, $(#[$extra:meta])* fn $name:ident() $body:block) => {
+        $(#[$extra])*
         #[kani::proof]
         #[kani::unwind($u)]
         #[kani::stub(crc32fast::Hasher::new, crate::kani_support::stubs::crc_new)]
@@ -68,7 +71,8 @@ macro_rules! env_proof {
         #[kani::stub(crate::raft_log::raft_log::RaftLog::load_chunk_ids, crate::raft_log::raft_log::kani_h_a_raftlog::stub_load_chunk_ids)]
         fn $name() $body
     };
-    (unwind = $u:expr, rot = ghost, crc = real, fn $name:ident() $body:block) => {
+    (unwind = $u:expr, rot = ghost, crc = real, $(#[$extra:meta])* fn $name:ident() $body:block) => {
+        $(#[$extra])*
         #[kani::proof]
         #[kani::unwind($u)]
         #[kani::stub(crc32fast::Hasher::new, crate::kani_support::stubs::crc_new)]
@@ -95,7 +99,8 @@ macro_rules! env_proof {
         #[kani::stub(crate::raft_log::wal::RaftLogWAL::is_open_chunk_full, crate::raft_log::wal::kani_h_a_wal::stub_is_open_chunk_full)]
         fn $name() $body
     };
-    (unwind = $u:expr, rot = ghost, crc = off, fn $name:ident() $body:block) => {
+    (unwind = $u:expr, rot = ghost, crc = off, $(#[$extra:meta])* fn $name:ident() $body:block) => {
+        $(#[$extra])*
         #[kani::proof]
         #[kani::unwind($u)]
         #[kani::stub(crc32fast::Hasher::new, crate::kani_support::stubs::crc_new)]
